@@ -31,7 +31,7 @@ def make_case(seed, tier):
     if r.random() < 0.6:
         k = cohgen.Knobs(classes=r.choice([2, 4]), members=r.choice([3, 6]), ns_depth=r.choice([0, 1, 2, deep]),
                          namespaces=r.choice([1, 2]), funcs=r.choice([1, 3]))
-        mod = cohgen.CohGen(seed, k, target='matlab').module()
+        mod = cohgen.CohGen(seed, k, target='matlab', serialize_p=0.2).module()
         kind = 'coherent'
     else:
         knobs = gen.Knobs(items=r.choice([3, 5]), members=r.choice([4, 8]), ns_depth=r.choice([1, 2, deep]), inst_len=3)
@@ -95,6 +95,19 @@ def check(mod, opts, acc, text):
             elif d['kind'] == 'class':
                 acc.count('classdefs_checked')
                 vs += check_classdef(path, d, p)
+                if d['serialize']:
+                    # the serialization support refers to the class by its package path (D20, repaired)
+                    mname = path[:-2].replace('+', '').replace('/', '.')
+                    used = set(re.findall(r"([\w.]*)\.string_deserialize\(sobj\)", tb.raw[path]))
+                    acc.count('serialize_names_checked')
+                    if used != {mname}:
+                        vs.append({'what': 'loadobj calls string_deserialize of another name than the class', 'file': path,
+                                   'expected': mname, 'actual': sorted(used)})
+                    handles = set(re.findall(r'Shared output\(new %s\(\)\);\s*in_archive >> \*output;\s*out\[0\] = wrap_shared_ptr\(output,"([^"]*)"'
+                                             % re.escape(d['cpp']), tb.raw[tb.cpp_files[0]])) if tb.cpp_files else set()
+                    if handles != {mname}:
+                        vs.append({'what': 'deserialization wraps the object as another MATLAB class', 'file': path,
+                                   'expected': mname, 'actual': sorted(handles)})
         # MEX source
         if tb.cpp:
             cnames = [d['collector'] for d in exp.classes]
